@@ -4,6 +4,7 @@ cd "$(dirname "$0")/.." || exit 2
 p=$1; patch=$2; tier=${3:-quick}
 git -C /repo diff --quiet || { echo "/repo not clean"; exit 2; }
 git -C /repo apply "$patch" || { echo "patch does not apply"; exit 2; }
-./check "$p" --tier "$tier"; rc=$?
+mkdir -p "${VERIF_SCRATCH:-/var/tmp}/verif-seed-evidence"
+VERIF_EVIDENCE_DIR="${VERIF_SCRATCH:-/var/tmp}/verif-seed-evidence" ./check "$p" --tier "$tier"; rc=$?
 git -C /repo checkout -- .
 echo "exit=$rc"
